@@ -31,12 +31,27 @@ def check_less_if(ctx, rep, rule='O-swap'):
         if b is None:
             return None
         tab = {}
-        for p in ps:
-            if p.end != 'return' or len(p.conds) != 1:
-                continue
-            (v, c) = p.conds[0]
-            if strip_upd(v)[0] == 'param':
-                tab[c[1]] = ordering_const(p.ret)
+        for cval in (True, False):
+            outs = set()
+            for p in ps:
+                if p.end != 'return':
+                    continue
+                if any(strip_upd(v)[0] == 'param' and bool(c[1]) != cval for (v, c) in p.conds):
+                    continue
+                r = strip_upd(sym.simplify(sym.subst(p.ret, p.conds)))
+                o = ordering_const(r)
+                if o is None and r[0] in ('pcall', 'call') and r[1] in (LESS_IF, LESS_IF_INV) and r[1] != fn and r[1] in tabs and len(r[2]) == 1:
+                    # defined through its sibling: evaluate the argument
+                    a = strip_upd(sym.simplify(r[2][0]))
+                    neg = False
+                    while a[0] == 'op' and a[1] == 'not':
+                        neg, a = not neg, strip_upd(a[2])
+                    if a[0] == 'param':
+                        o = tabs[r[1]].get(cval != neg)
+                    elif sym.is_const(a):
+                        o = tabs[r[1]].get(bool(a[1]) != neg)
+                outs.add(o)
+            tab[cval] = outs.pop() if len(outs) == 1 else None
         tabs[fn] = tab
     ok = tabs[LESS_IF] == {True: 'Less', False: 'Greater'}
     rep.ob(rule, 'less_if-table', ok, 'less_if must map true->Less, false->Greater; is %s' % tabs[LESS_IF], reason='table-row')
@@ -44,6 +59,38 @@ def check_less_if(ctx, rep, rule='O-swap'):
     rep.ob(rule, 'less_if_inversed-is-negation', ok, 'less_if_inversed must be the pointwise negation of less_if; is %s' % tabs[LESS_IF_INV],
            reason='table-row')
     return tabs
+
+
+def order_test(v, first, second):
+    """+1 when the condition v is `first is before second` (first > second in the reversed heap order, or first.cmp(second) == Greater),
+    -1 when it is `first is after second`, 0 when it is not a comparison of the two events themselves"""
+    x = strip_upd(v)
+    if x[0] != 'op' or len(x) != 4:
+        return 0
+    s = show(noepoch(x))
+    if 'point' in s or 'orient2d' in s or 'contour_id' in s or 'is_subject' in s:
+        return 0
+    if x[1] in ('gt', 'lt'):
+        sa, sb = show(noepoch(x[2])), show(noepoch(x[3]))
+        if first in sa and second in sb and second not in sa and first not in sb:
+            return 1 if x[1] == 'gt' else -1
+        if second in sa and first in sb and first not in sa and second not in sb:
+            return -1 if x[1] == 'gt' else 1
+        return 0
+    if x[1] in ('eq', 'ne'):
+        for call, const in ((strip_upd(x[2]), strip_upd(x[3])), (strip_upd(x[3]), strip_upd(x[2]))):
+            o = ordering_const(const)
+            if call[0] in ('call', 'pcall') and call[1] == CMP and o in ('Greater', 'Less') and len(call[2]) == 2:
+                sa, sb = show(noepoch(call[2][0])), show(noepoch(call[2][1]))
+                if first in sa and second in sb:
+                    d = 1
+                elif second in sa and first in sb:
+                    d = -1
+                else:
+                    return 0
+                d = d if o == 'Greater' else -d
+                return d if x[1] == 'eq' else -d       # cmp never returns Equal (O-noequal)
+    return 0
 
 
 def check_noequal(ctx, rep, rule='O-noequal'):
@@ -81,10 +128,17 @@ def check_noequal(ctx, rep, rule='O-noequal'):
         bb, pp = rep.explore(ctx, 'boolean::sweep_event::SweepEvent::<F>::' + fn, rule)
         if bb is None:
             continue
-        ok = False
+        ok = bool(pp)
         for p in pp:
-            r = strip_upd(p.ret)
-            ok = r[0] == 'op' and r[1] == op and 'self' in show(r[2]) and 'other' in show(r[3])
+            if p.end != 'return':
+                continue
+            r = strip_upd(sym.simplify(sym.subst(p.ret, p.conds)))
+            want = 1 if fn == 'is_before' else -1
+            if sym.is_const(r):
+                d = [order_test(v, 'self', 'other') * (1 if c[1] else -1) for (v, c) in p.conds if order_test(v, 'self', 'other')]
+                ok = ok and len(d) == 1 and (d[0] == want) == bool(r[1])
+            else:
+                ok = ok and order_test(r, 'self', 'other') == want
         rep.ob(rule, '%s-is-%s' % (fn, op), ok, '%s must be `self %s other` (reversed heap convention)' % (fn, '>' if op == 'gt' else '<'),
                loc=bb.loc(bb.j['line_lo']), reason='table-row')
 
@@ -103,6 +157,13 @@ def atom_of(v):
         return ('const', x[1])
     if k == 'op' and x[1] == 'not':
         return ('not', atom_of(x[2]))
+    if k == 'op' and x[1] in ('bitxor', 'bitand', 'bitor') and len(x) == 4:
+        a, b = atom_of(x[2]), atom_of(x[3])
+        if a[0] == 'unknown':
+            return a
+        if b[0] == 'unknown':
+            return b
+        return ('bool', x[1], a, b)
     if k == 'op' and x[1] in ('gt', 'lt', 'ne', 'eq', 'ge', 'le') and len(x) == 4:
         a, b = strip_upd(x[2]), strip_upd(x[3])
         # coordinate comparison of the two event points
@@ -182,6 +243,9 @@ def ev_atom(at, g, role):
         return at[1]
     if k == 'not':
         return not ev_atom(at[1], g, role)
+    if k == 'bool':
+        a, b = bool(ev_atom(at[2], g, role)), bool(ev_atom(at[3], g, role))
+        return {'bitxor': a != b, 'bitand': a and b, 'bitor': a or b}[at[1]]
     if k == 'coordcmp':
         _, op, e1, e2, axis = at
         s = g.sx if axis == 'x' else g.sy
@@ -385,12 +449,10 @@ def check_compare_segments(ctx, rep, rule_eq='O-equal-identity', rule_swap='O-sw
             x = strip_upd(v)
             if x[0] in ('pcall', 'call') and x[1].endswith('::ptr_eq'):
                 peq = cc[1]
-            if x[0] == 'op' and x[1] in ('gt', 'lt') and 'se1_l' in show(x[2]) + show(x[3]) and 'point' not in show(noepoch(x)) \
-                    and 'orient2d' not in show(noepoch(x)) and 'contour_id' not in show(noepoch(x)):
-                a_is_1 = 'se1_l' in show(x[2])
-                val = cc[1]
+            d = order_test(x, 'se1_l', 'se2_l')
+            if d:
                 # is_before(se1, se2) == (se1 > se2)
-                before = val if (x[1] == 'gt') == a_is_1 else (not val)
+                before = bool(cc[1]) if d > 0 else (not cc[1])
         if c == 'Equal':
             n_eq += 1
             rep.ob(rule_eq, 'Equal-only-for-identical-segment', peq is True,
@@ -416,7 +478,7 @@ def check_compare_segments(ctx, rep, rule_eq='O-equal-identity', rule_swap='O-sw
         for (v, cc) in p.conds:
             s = show(noepoch(v))
             x = strip_upd(v)
-            if x[0] == 'op' and x[1] in ('gt', 'lt') and 'point' not in s and 'orient2d' not in s and 'contour_id' not in s and 'se1_l' in s and 'se2_l' in s:
+            if order_test(x, 'se1_l', 'se2_l'):
                 after = True     # the is_before test itself: the decision logic proper starts here
                 continue
             if not after:
@@ -626,7 +688,7 @@ def _seg_eval(at, val):
             return val['same_subj'] if op == 'eq' else not val['same_subj']
         x, y = _seg_eval(a, val), _seg_eval(b, val)
         return {'eq': x == y, 'ne': x != y, 'lt': x < y, 'gt': x > y, 'le': x <= y, 'ge': x >= y,
-                'bitor': bool(x) or bool(y), 'bitand': bool(x) and bool(y)}[op]
+                'bitor': bool(x) or bool(y), 'bitand': bool(x) and bool(y), 'bitxor': bool(x) != bool(y)}[op]
     raise ValueError('atom %r' % (at,))
 
 
@@ -671,9 +733,9 @@ def check_segment_oracle(ctx, rep, rule='O-segment-oracle'):
             for (v, cc) in p.conds:
                 s = show(noepoch(v))
                 x = strip_upd(v)
-                if x[0] == 'op' and x[1] in ('gt', 'lt') and 'point' not in s and 'orient2d' not in s and 'contour_id' not in s and 'se1_l' in s and 'se2_l' in s:
-                    a_is_1 = 'se1_l' in show(x[2])
-                    before = cc[1] if (x[1] == 'gt') == a_is_1 else (not cc[1])
+                d = order_test(x, 'se1_l', 'se2_l')
+                if d:
+                    before = bool(cc[1]) if d > 0 else (not cc[1])
                     after = True
                     continue
                 if after:
